@@ -18,6 +18,7 @@ RULE = (
     "histories. Non-trivial: at least one publish was delivered and one was not. Spec oracle = reference multiset-prefix "
     "model (python): delivered iff some topic with positive count is a byte-prefix of the first frame; exactly one copy; "
     "XPUB recv returns each subscriber message verbatim, in per-peer order."
+    " Family takeover (states open / eof / parked): a second connection registers under an identity that is still registered, for PUB and XPUB; for XPUB `parked` the application's recv is parked on the old stream when the new one is inserted — the new connection's subscriptions must be read and honoured."
 )
 ASSUMPTIONS = ["PUB subscription messages are processed by its reader tasks: observed at quiescent points (after `drain`)"]
 TRUSTED = ["tokio current-thread scheduling of the PUB reader tasks (only run inside `drain`)"]
@@ -100,6 +101,10 @@ def takeover_case(typ, old_state, n):
     settle()
     sc.send_once(1, [b"x-probe"])
     sc.add("wire 1")
+    if old_state == "parked":
+        # the application has looked again and found nothing: the old stream is parked, no event for it is queued
+        f = sc.fut()
+        sc.add(f"recv {f} 1", f"poll {f}", f"drop {f}")
     if old_state == "eof":
         sc.add("eof 1")
     sc.attach(1, 2, "SUB", b"sub-A")
@@ -132,7 +137,7 @@ def takeover_oracle(case, lines):
 def cases(tier, rng):
     out = gen.corpus(ID)
     for typ in ("PUB", "XPUB"):
-        for i, old_state in enumerate(("open", "eof")):
+        for i, old_state in enumerate(("open", "eof") + (("parked",) if typ == "XPUB" else ())):
             out.append(takeover_case(typ, old_state, 990000 + i))
     # safety net: seeded random schedules of these socket types over scripted pipes (partial reads, back-pressure,
     # errors, futures polled once or twice and then ABANDONED, sockets dropped) — every line predicted by the World model
